@@ -161,6 +161,17 @@ bool detail_op(const std::string& fn, const std::string& tag, const std::vector<
 static bool eval(const std::string& fn, const std::string& tag, const std::vector<i128>& a)
   {
   size_t n = a.size();
+  if(fn=="after" && n==4)
+    { // `after[:tag] i j a b`: NAMES[i](a) is evaluated, then NAMES[j](b) in the same thread, and the second result is the one
+      // reported (two entry points sharing hidden state).  Same table in tools/irsearch.py, tools/suites.py and lean/Main.lean.
+    static const char* const names[] = {"sin","cos","tan","atan","sqrt","asin","acos","ceil","floor","sqrt_aprox","atan_index","atan_aprox","neg","abs"};
+    if(a[0]<0||a[0]>13||a[1]<0||a[1]>13) return false;
+    auto tg = [&](int k){ return (k>=4 && k<=6) ? (tag.empty() ? std::string("dflt") : tag) : std::string(); };
+    std::fflush(stdout);
+    FILE* keep = stdout; static FILE* devnull = std::fopen("/dev/null", "w");
+    stdout = devnull; eval(names[(int)a[0]], tg((int)a[0]), std::vector<i128>{a[2]}); std::fflush(devnull); stdout = keep;
+    return eval(names[(int)a[1]], tg((int)a[1]), std::vector<i128>{a[3]});
+    }
   if(fn.rfind("lit_", 0) == 0 && n == 1 && (tag.empty() || tag == "dflt"))
     { long long r; if(!lit_eval(fn.substr(4), (long long)a[0], r)) return false; out_i(r); return true; }
   if(tag.empty())
